@@ -149,14 +149,55 @@ impl Property for C10 {
             return;
         }
         let mut r = Rng::keyed(&[cfg.seed, 10, i]);
-        let session = gen_small_session(&mut r);
+        // every 40th stream is a big one (a response around a 4096*2^k buffer edge, or a 66-530 KB binary part, followed
+        // by further responses): too long to cut everywhere, so the cuts are the response boundaries, their
+        // neighbours, the buffer-edge multiples and a random sample
+        let big = i % 40 == 7;
+        let session = if !big {
+            gen_small_session(&mut r)
+        } else if r.chance(1, 2) {
+            crate::refmodel::gen::gen_huge_session(&mut r)
+        } else {
+            crate::refmodel::gen::gen_edge_session(&mut r)
+        };
         let enc = encode_session(&session);
         let len = enc.bytes.len();
         acc.inc("streams");
+        if big {
+            acc.inc("big_streams_with_sampled_cuts");
+        }
         acc.max("stream_len", len as u64);
         let shash = hash_bytes(&enc.bytes);
         let mut sampled = false;
-        for c in 0..=len {
+        let cuts: Vec<usize> = if !big {
+            (0..=len).collect()
+        } else {
+            let mut v: Vec<usize> = vec![0, len];
+            for b in &enc.boundaries {
+                for d in [-2isize, -1, 0, 1, 2] {
+                    let c = *b as isize + d;
+                    if c >= 0 && c as usize <= len {
+                        v.push(c as usize);
+                    }
+                }
+            }
+            for k in 0..8 {
+                let e = 4096usize << k;
+                for c in [e - 1, e, e + 1] {
+                    if c <= len {
+                        v.push(c);
+                    }
+                }
+            }
+            for _ in 0..16 {
+                v.push(r.below(len + 1));
+            }
+            v.sort_unstable();
+            v.dedup();
+            v
+        };
+        let ncuts = cuts.len();
+        for c in cuts {
             let prefix = &enc.bytes[..c];
             let mut expected: Vec<Item> = Vec::new();
             for (k, b) in enc.boundaries.iter().enumerate() {
@@ -171,7 +212,7 @@ impl Property for C10 {
             if !on_boundary {
                 acc.distinct("nontrivial", mix(&[shash, c as u64]));
             }
-            let segs = [Seg::Whole, Seg::Bytewise, Seg::random(&mut r, c, 6)];
+            let segs = [Seg::Whole, if c > 20_000 { Seg::random(&mut r, c, 3) } else { Seg::Bytewise }, Seg::random(&mut r, c, 6)];
             for (k, seg) in segs.iter().enumerate() {
                 for flavour in [Flavour::Sync, Flavour::Async] {
                     let spec = RunSpec {
@@ -202,8 +243,8 @@ impl Property for C10 {
                                 J::Arr(out.items.iter().map(|x| J::Str(x.kind().into())).collect()).render_compact()
                             ),
                             J::obj()
-                                .set("stream_hex", J::hex(&enc.bytes))
-                                .set("stream_text", J::bytes(&enc.bytes))
+                                .set("stream_hex", J::hex(&enc.bytes[..len.min(65536)]))
+                                .set("stream_text", J::bytes(&enc.bytes[..len.min(4096)]))
                                 .set("boundaries", enc.boundaries.clone())
                                 .set("cut", c)
                                 .set("observed", J::Arr(out.items.iter().map(|x| x.to_json()).collect())),
@@ -225,12 +266,12 @@ impl Property for C10 {
                 );
             }
         }
-        acc.count("cuts", (len + 1) as u64);
+        acc.count("cuts", ncuts as u64);
     }
     fn meta(&self, _cfg: &Cfg, _acc: &Acc) -> Meta {
         Meta {
             level: "fault_enumeration",
-            rule: "for every generated well-formed stream (1-4 responses with lists, errors, binary parts, keyword-like values) EVERY cut offset 0..=len is enumerated; the prefix is fed under whole, byte-at-a-time and random segmentation to both connection flavours and must yield exactly the responses ending at or before the cut followed by Ok(None) iff the cut is a response boundary recorded by the reference encoder, else Io(UnexpectedEof); plus every prefix of 12 valid greeting lines; non-trivial = cut strictly inside a response (or inside the greeting); distinct by (stream hash, cut offset)".into(),
+            rule: "for every generated well-formed stream (1-4 responses with lists, errors, binary parts, keyword-like values) EVERY cut offset 0..=len is enumerated; the prefix is fed under whole, byte-at-a-time and random segmentation to both connection flavours and must yield exactly the responses ending at or before the cut followed by Ok(None) iff the cut is a response boundary recorded by the reference encoder, else Io(UnexpectedEof); plus every prefix of 12 valid greeting lines; every 40th stream is a big one (response around a 4096*2^k buffer edge or a 66-530 KB binary part followed by further responses) cut at the response boundaries +-2, the buffer-edge multiples +-1 and 16 random offsets; non-trivial = cut strictly inside a response (or inside the greeting); distinct by (stream hash, cut offset)".into(),
             nontrivial_set: "nontrivial",
             assumptions: vec!["response boundaries are those recorded by the harness-side reference encoder".into(), "error kind compared (UnexpectedEof), not the message".into()],
             exhaustive: Some(true),
